@@ -37,6 +37,12 @@ def run(run):
     nr, nops = (20, 300) if run.thorough() else (1, 120)
     tr2 = exec_script(run, exe, [], "Gen %d %d %d %d\n" % (run.seed, nr, nops, 1 if run.thorough() else 0), run.path("geometries.ndjson"), "all-geometries")
     check_trace(run, "all-geometries", "TraceMessageQSeq", "TraceMessageQSeq.cfg", tr2)
+    # the closed form the long-service traces are judged with: one whole cycle from any idle state = Cycles(1); composition
+    for cfgname in ("MessageQSeqCycle.cfg", "MessageQSeqCycle5.cfg"):
+        res = require_ok(run, tlc(run, "MessageQSeqCycle", cfgname, tag="cycle-law-" + cfgname[-5], coverage=False), "cycle law")
+        if res["violated"]:
+            raise Infra("MessageQSeqCycle violates %s" % res["violated"])
+        account_mc(run, res)
     # queues that have been in service for a very long time (2^32 and more claims in thorough): an uninstrumented -O2 build of
     # the same driver, its trace validated against the same specification (Cycles(n) = n whole cycles on an idle queue)
     fast = build_driver(run, "mqseq_drv_fast", "mqseq_drv.c", ["librfn/messageq.c"], cc=["gcc", "-std=gnu11", "-O2", "-g", "-DLIBRFN_VERIF"])
